@@ -1,8 +1,9 @@
 (* Routing tables of a tunnel node under control traffic: TunnelCommunity.on_create / join_circuit,
    on_created (relay side), on_extend, on_destroy, remove_circuit / remove_relay / remove_exit_socket
    (destroy now, pop after remove_tunnel_delay), CreatedRequestCache expiry, and the data plane of
-   M04_onion for every other cell.  Follows the code after the `fix:` commit "a create for a circuit id that
-   is still in use replaces the existing exit socket".  The key agreement, payload parsing and candidate
+   M04_onion for every other cell.  Follows the code after the `fix:` commits "a create for a circuit id that
+   is still in use replaces the existing exit socket" and "a stale created rewrites the forward route of an
+   already extended circuit".  The key agreement, payload parsing and candidate
    selection are oracles carried by the operations (C08 / C02 / C03).  No proofs here. *)
 From Coq Require Import ZArith List Bool Lia.
 From IPV8V Require Import lib.PyErr lib.Bytes lib.BE model.M02_wire model.M03_recv model.M04_onion.
@@ -139,6 +140,8 @@ Definition on_created (c : cnode) (src : addr) (cid ident : Z) : cnode * list ca
       match assoc (cr_from rq) (n_exits t) with
       | None => (c1, [])
       | Some es =>
+          if has (cr_from rq) (n_relays t) then (c1, [])      (* already extended: a late answer is refused *)
+          else
           let keys := h_keys (es_hop es) in
           let bw := mkRR (cr_from rq) (mkHop (pr_pk (cr_peer rq)) (pr_addr (cr_peer rq)) keys) BACKWARD false 1 in
           let fw := mkRR (cr_to rq) (mkHop (pr_pk (cr_to_peer rq)) (pr_addr (cr_to_peer rq)) keys) FORWARD false 1 in
